@@ -8,13 +8,68 @@
 //   ok <num> <gen> <start> <end> <cursor> <objstart> <objend> <depth delta> <S-expression>
 //   err <kind> <cursor> <depth delta>
 //   L <num>:<gen> <objstart> <objend> <S-expression>   |   L <num>:<gen> none
+//
+// view variant:  vw <steps> <prehex> <sufhex> <case as above>
+//   the bytes <prehex> ++ <bufhex> ++ <sufhex> are ONE allocation; <steps> (comma-separated, applied in
+//   order, each to the result of the previous one) restrict it to a view:
+//     R<start>:<size>  RestrictView::new(start, size)      F<start>  RestrictViewFrom::new(start)
+//   the case then runs on the resulting view exactly as on a plain buffer (offsets = cursors of the
+//   view).  The steps are meant to select the window <bufhex>; the harness checks that the view it
+//   obtained shows exactly those bytes (`view-mismatch` otherwise; `view-error` if a step is refused).
 use parsley_rust::pcore::parsebuffer::{ParseBuffer, ParseBufferT};
+use parsley_rust::pcore::transforms::{BufferTransformT, RestrictView, RestrictViewFrom};
 use parsley_rust::pdf_lib::pdf_obj::{parse_pdf_indirect_obj, PDFObjContext};
 use verif_harness::objfmt::obj_sexp;
 use verif_harness::*;
 
 fn run(line: &str) -> String {
     let w: Vec<&str> = line.split_whitespace().collect();
+    if !w.is_empty() && w[0] == "vw" {
+        if w.len() < 9 {
+            return "bad-case".to_string()
+        }
+        let inner = unhex(w[6]);
+        let mut all = unhex(w[2]);
+        all.extend_from_slice(&inner);
+        all.extend_from_slice(&unhex(w[3]));
+        let mut pb = ParseBuffer::new(all);
+        for st in w[1].split(',') {
+            let r = if let Some(t) = st.strip_prefix('R') {
+                let p: Vec<&str> = t.split(':').collect();
+                if p.len() != 2 {
+                    return "bad-case".to_string()
+                }
+                match (p[0].parse::<usize>(), p[1].parse::<usize>()) {
+                    (Ok(a), Ok(b)) => RestrictView::new(a, b).transform(&pb),
+                    _ => return "bad-case".to_string(),
+                }
+            } else if let Some(t) = st.strip_prefix('F') {
+                match t.parse::<usize>() {
+                    Ok(a) => RestrictViewFrom::new(a).transform(&pb),
+                    _ => return "bad-case".to_string(),
+                }
+            } else {
+                return "bad-case".to_string()
+            };
+            pb = match r {
+                Ok(v) => v,
+                Err(_) => return "view-error".to_string(),
+            };
+        }
+        if pb.get_cursor() != 0 || pb.size() != inner.len() || pb.buf() != &inner[..] {
+            return "view-mismatch".to_string()
+        }
+        return run_on(&w[4 ..], pb, inner.len())
+    }
+    if w.len() < 5 {
+        return "bad-case".to_string()
+    }
+    let bytes = unhex(w[2]);
+    let len = bytes.len();
+    run_on(&w, ParseBuffer::new(bytes), len)
+}
+
+fn run_on(w: &[&str], mut pb: ParseBuffer, len: usize) -> String {
     if w.len() < 5 {
         return "bad-case".to_string()
     }
@@ -22,9 +77,6 @@ fn run(line: &str) -> String {
         Ok(d) => d,
         Err(_) => return "bad-case".to_string(),
     };
-    let bytes = unhex(w[2]);
-    let len = bytes.len();
-    let mut pb = ParseBuffer::new(bytes);
     let mut ctxt = PDFObjContext::new(d);
     let mut segs: Vec<String> = Vec::new();
     if w[3] != "-" {
